@@ -1199,10 +1199,9 @@ def run_vine(ctx, pend, E, case, viol, tmpdir):
     gres, g = S.result_term(lambda: Multivariate.from_dict(d), S.alpha_v, 'vine')
     pend.eq(f'corr:{key}:Multivariate.from_dict', f'multivariate_from_dict_vine {L(S.pv_dict(d))}', gres, 'generic entry point on a vine dict')
     if isinstance(g, Exception):
-        k = 'F-C14c:multivariate-from_dict-vine-TypeError' if isinstance(g, TypeError) and 'vine_type' in str(g) else \
-            f'rt:vine:{case["vt"]}:generic-dispatch:{type(g).__name__}'
-        viol.add(k, f'Multivariate.from_dict(vine.to_dict()) raises {type(g).__name__}: {g} (get_instance(type) instantiates VineCopula() '
-                    f'without its required vine_type)', case['src'] + 'r = Multivariate.from_dict(m.to_dict())\nassert type(r).__name__ == "VineCopula"\n')
+        k = f'rt:vine:{case["vt"]}:generic-dispatch:{type(g).__name__}'       # (was finding F38 until the fix: VineCopula() without vine_type)
+        viol.add(k, f'Multivariate.from_dict(vine.to_dict()) raises {type(g).__name__}: {g}',
+                 case['src'] + 'r = Multivariate.from_dict(m.to_dict())\nassert type(r).__name__ == "VineCopula"\n')
     Ms = [m.u_matrix[i:i + 1].repeat(m.n_var, 0) for i in range(2)]
     chains, alphas = {}, {}
     for path, entry in (('dict', VineCopula), ('file', VineCopula), ('file-generic', Multivariate)):
